@@ -117,7 +117,16 @@ func stmtRunOp(s *server.VerifStmtSession, op core.Sexp) (out string) {
 			out = "panic"
 		}
 	}()
-	data := op.Nth(1).Bytes()
+	// The payload lives in the connection's read buffer, which Session.Run recycles right
+	// after the command and the next packet overwrites: whatever the command keeps must have
+	// been copied. The buffer is scribbled over when the command returns, so that a retained
+	// alias (e.g. parameter types kept for later executions) shows up as a wrong result.
+	data := append(make([]byte, 0, len(op.Nth(1).Bytes())+8), op.Nth(1).Bytes()...)
+	defer func() {
+		for i := range data[:cap(data)] {
+			data[:cap(data)][i] = 0xa5
+		}
+	}()
 	switch op.Head() {
 	case "prepare":
 		o := s.Command(mysql.ComStmtPrepare, data)
